@@ -12,7 +12,9 @@ import (
 
 // C08: MergeSortedStreams over tagged elements (key, tag); the comparator looks at the key only,
 // the globally unique tag makes ties and stability observable.
-// case := "merge | <in> | <in> ..."   in := "-" | "key:tag,key:tag,..."
+// case := "<head> | <in> | <in> ..."   in := "-" | "key:tag,key:tag,..."
+// head := "merge" (cmp.Compare) | "mergeD" (difference comparator a.K-b.K) | "mergeS" (7*sign): the property holds for
+// every legal three-way comparator, not only for those that answer -1/0/+1
 
 type kt struct {
 	K int64
@@ -66,7 +68,18 @@ func init() {
 
 func execC08(caseText string) string {
 	parts := strings.Split(caseText, " | ")
-	if len(parts) < 1 || strings.TrimSpace(parts[0]) != "merge" {
+	if len(parts) < 1 {
+		return "bad-case"
+	}
+	var cmpf func(a, b kt) int
+	switch strings.TrimSpace(parts[0]) {
+	case "merge":
+		cmpf = func(a, b kt) int { return cmp.Compare(a.K, b.K) }
+	case "mergeD":
+		cmpf = func(a, b kt) int { return int(a.K - b.K) }
+	case "mergeS":
+		cmpf = func(a, b kt) int { return 7 * cmp.Compare(a.K, b.K) }
+	default:
 		return "bad-case"
 	}
 	var streams []stream.Stream[kt]
@@ -77,12 +90,14 @@ func execC08(caseText string) string {
 		}
 		streams = append(streams, stream.Just(l...))
 	}
-	res, err := stream.MergeSortedStreams(func(a, b kt) int { return cmp.Compare(a.K, b.K) }, streams...).Collect(context.Background())
+	res, err := stream.MergeSortedStreams(cmpf, streams...).Collect(context.Background())
 	if err != nil {
 		return errClass(err)
 	}
 	return "ok " + fmtKts(res)
 }
+
+var c08n int
 
 func emitC08(c *Ctx, ins [][]kt) {
 	total := 0
@@ -93,12 +108,21 @@ func emitC08(c *Ctx, ins [][]kt) {
 			nonEmpty++
 		}
 	}
-	parts := []string{"merge"}
+	var parts []string
 	for _, l := range ins {
 		parts = append(parts, fmtKts(l))
 	}
 	// non-trivial: at least two non-empty inputs (something to interleave)
-	c.Case(nonEmpty >= 2, strings.Join(parts, " | "))
+	c08n++
+	head := "merge"
+	switch c08n % 4 {
+	case 1:
+		head = "mergeD"
+	case 3:
+		head = "mergeS"
+	}
+	c.Case(nonEmpty >= 2, strings.Join(append([]string{head}, parts...), " | "))
+	_ = total
 }
 
 func genC08(c *Ctx) {
